@@ -524,6 +524,12 @@ fn read_block(r: &mut Rd, h: &Hdr, ts: usize) -> Result<ZoneModel, String> {
     r.take(h.isut)?;
     let mut types = Vec::new();
     for (off, dst, ci) in raw_types {
+        if dst > 1 {
+            return Err("isdst".into());
+        }
+        if off == i32::MIN {
+            return Err("utoff".into());
+        }
         let ci = ci as usize;
         if ci >= chars.len() {
             return Err("abbrev index".into());
@@ -558,6 +564,54 @@ pub fn read_tzif(bytes: &[u8]) -> Result<(u8, ZoneModel, Option<String>), String
         m.rule = Some(parse_posix(&ft, h.version >= 3)?);
     }
     Ok((h.version, m, Some(ft)))
+}
+
+/// Strict validity per RFC 8536 for the categories C16 names: header counts, indicator counts,
+/// sorted transitions, indices in bounds, isdst/utoff domains, footer framing; v1 without trailing bytes.
+pub fn read_tzif_strict(bytes: &[u8]) -> Result<(u8, ZoneModel), String> {
+    let mut r = Rd { b: bytes, p: 0 };
+    let chk_hdr = |h: &Hdr| -> Result<(), String> {
+        if h.typ == 0 || h.chr == 0 || !(h.isut == 0 || h.isut == h.typ) || !(h.isstd == 0 || h.isstd == h.typ) {
+            return Err("header counts".into());
+        }
+        Ok(())
+    };
+    let sorted = |m: &ZoneModel| -> Result<(), String> {
+        if m.transitions.windows(2).any(|w| w[0].0 >= w[1].0) {
+            return Err("unsorted".into());
+        }
+        Ok(())
+    };
+    let h = read_hdr(&mut r)?;
+    if h.version == 4 {
+        return Err("version 4 not judged".into());
+    }
+    chk_hdr(&h)?;
+    let m1 = read_block(&mut r, &h, 4)?;
+    if h.version == 1 {
+        if r.p != bytes.len() {
+            return Err("trailing".into());
+        }
+        sorted(&m1)?;
+        return Ok((1, m1));
+    }
+    let h2 = read_hdr(&mut r)?;
+    chk_hdr(&h2)?;
+    let mut m = read_block(&mut r, &h2, 8)?;
+    sorted(&m)?;
+    let rest = &bytes[r.p..];
+    let footer = std::str::from_utf8(rest).map_err(|_| "footer utf8")?;
+    if !(footer.starts_with('\n') && footer.ends_with('\n')) || footer.len() < 2 {
+        return Err("footer framing".into());
+    }
+    let ft = &footer[1..footer.len() - 1];
+    if ft.contains('\0') || ft.contains('\n') || ft.starts_with(':') {
+        return Err("footer content".into());
+    }
+    if !ft.is_empty() {
+        m.rule = Some(parse_posix(ft, h.version >= 3)?);
+    }
+    Ok((h.version, m))
 }
 
 // ------------------------------------------------------------------------------------------------
@@ -752,8 +806,8 @@ pub fn random_day(rng: &mut Rng) -> Day {
 
 /// Random rule with DST (both hemispheres, negative DST allowed). `ext` allows v3 times (-167..=167 h).
 pub fn random_rule(rng: &mut Rng, ext: bool, alpha_names: bool) -> Rule {
-    let std_off = if rng.chance(1, 5) { rng.range(-24 * 3600, 24 * 3600) as i32 } else { rng.range(-14, 14) as i32 * 3600 + *rng.pick(&[0, 0, 0, 1800, 900, 2700]) };
-    let std_off = std_off.clamp(-24 * 3600, 24 * 3600);
+    let std_off = if rng.chance(1, 5) { rng.range(-86_399, 86_399) as i32 } else { rng.range(-14, 14) as i32 * 3600 + *rng.pick(&[0, 0, 0, 1800, 900, 2700]) };
+    let std_off = std_off.clamp(-86_399, 86_399);
     let std = TzType { off: std_off, dst: false, name: random_name(rng, alpha_names) };
     if rng.chance(1, 6) {
         return Rule { std, dst: None };
@@ -765,7 +819,7 @@ pub fn random_rule(rng: &mut Rng, ext: bool, alpha_names: bool) -> Rule {
         3 => rng.range(-7200, 7200) as i32,
         _ => 3600,
     };
-    let dst_off = (std_off + delta).clamp(-24 * 3600, 24 * 3600);
+    let dst_off = (std_off + delta).clamp(-86_399, 86_399);
     let time = |rng: &mut Rng| -> i32 {
         match rng.below(8) {
             0 => 7200,
